@@ -1,7 +1,198 @@
+//! Decision tables drawn as Unicode text (C19): recognition (`recog`) and recognition followed by
+//! evaluation (`dtext`).
+//!
+//! `recog`: {op:"recog", texts:[..]?, base:"..."?, edits:[[start,end,"replacement"],..]?, brief:bool?}
+//!   Items are `texts` followed by one item per edit; an edit replaces the characters
+//!   `[start,end)` (char indices, clamped) of `base` by `replacement` (this keeps the corruption
+//!   workload compact; the supervisor applies the same edit to build replay files).
+//!   -> {"rs":[ {"dt":{..}} | {"err":".."} | {"panic":{..}} , ..]}; with `brief` a recognised
+//!   table is reported as {"ok":[n_inputs,n_outputs,n_annotations,n_rules]} only.
+//! `dtext`: {op:"dtext", items:[{text, inputs:[ctx-entries,..]},..]}
+//!   -> {"rs":[ {"err"} | {"build_err"} | {"panic","stage"} | {"dt":{..},"vs":[{"v"[,"nm"]}|{"panic"},..]} ]}
+//!   The evaluator is built with `build_decision_table_evaluator` in the scope made of the first
+//!   input context (names must be known to the parser) and applied to a scope per input context.
+
+use crate::vj;
+use dmntk_feel::context::FeelContext;
+use dmntk_feel::Scope;
+use dmntk_model::model::{BuiltinAggregator, DecisionTable, DecisionTableOrientation, HitPolicy};
 use serde_json::{json, Value as J};
-pub fn op_recog(_case: &J) -> J {
-  json!({"harness_error": "not implemented"})
+
+fn take_panic() -> J {
+  crate::LAST_PANIC.lock().ok().and_then(|mut g| g.take()).unwrap_or(json!({"msg": "<unknown>"}))
 }
-pub fn op_dtext(_case: &J) -> J {
-  json!({"harness_error": "not implemented"})
+
+fn clear_panic() {
+  if let Ok(mut g) = crate::LAST_PANIC.lock() {
+    *g = None;
+  }
+}
+
+fn aggregator_name(a: &BuiltinAggregator) -> &'static str {
+  match a {
+    BuiltinAggregator::List => "LIST",
+    BuiltinAggregator::Count => "COUNT",
+    BuiltinAggregator::Sum => "SUM",
+    BuiltinAggregator::Min => "MIN",
+    BuiltinAggregator::Max => "MAX",
+  }
+}
+
+/// Every field of the recognised decision table, in order.
+fn table_json(dt: &DecisionTable) -> J {
+  let (hp, hp_agg) = match dt.hit_policy {
+    HitPolicy::Unique => ("U", None),
+    HitPolicy::Any => ("A", None),
+    HitPolicy::Priority => ("P", None),
+    HitPolicy::First => ("F", None),
+    HitPolicy::RuleOrder => ("R", None),
+    HitPolicy::OutputOrder => ("O", None),
+    HitPolicy::Collect(a) => ("C", Some(aggregator_name(&a))),
+  };
+  let orient = match dt.preferred_orientation {
+    DecisionTableOrientation::RuleAsRow => "row",
+    DecisionTableOrientation::RuleAsColumn => "col",
+    DecisionTableOrientation::CrossTable => "cross",
+  };
+  let inputs: Vec<J> = dt.input_clauses.iter().map(|c| json!({"e": c.input_expression, "v": c.input_values})).collect();
+  let outputs: Vec<J> = dt
+    .output_clauses
+    .iter()
+    .map(|c| json!({"n": c.name, "v": c.output_values, "d": c.default_output_entry, "t": c.type_ref}))
+    .collect();
+  let anns: Vec<J> = dt.annotations.iter().map(|a| json!(a.name)).collect();
+  let rules: Vec<J> = dt
+    .rules
+    .iter()
+    .map(|r| {
+      json!({
+        "i": r.input_entries.iter().map(|e| e.text.clone()).collect::<Vec<String>>(),
+        "o": r.output_entries.iter().map(|e| e.text.clone()).collect::<Vec<String>>(),
+        "a": r.annotation_entries.iter().map(|e| e.text.clone()).collect::<Vec<String>>(),
+      })
+    })
+    .collect();
+  json!({
+    "hp": hp,
+    "hp_agg": hp_agg,
+    "agg": dt.aggregation.as_ref().map(aggregator_name),
+    "orient": orient,
+    "name": dt.information_item_name,
+    "label": dt.output_label,
+    "inputs": inputs,
+    "outputs": outputs,
+    "anns": anns,
+    "rules": rules,
+  })
+}
+
+fn recognise_one(text: &str, brief: bool) -> J {
+  clear_panic();
+  match std::panic::catch_unwind(|| dmntk_recognizer::build(text)) {
+    Ok(Ok(dt)) => {
+      if brief {
+        json!({"ok": [dt.input_clauses.len(), dt.output_clauses.len(), dt.annotations.len(), dt.rules.len()]})
+      } else {
+        json!({ "dt": table_json(&dt) })
+      }
+    }
+    Ok(Err(e)) => json!({"err": e.to_string()}),
+    Err(_) => json!({"panic": take_panic()}),
+  }
+}
+
+pub fn op_recog(case: &J) -> J {
+  let brief = case.get("brief").and_then(|v| v.as_bool()).unwrap_or(false);
+  let empty = vec![];
+  let mut rs = vec![];
+  for t in case.get("texts").and_then(|v| v.as_array()).unwrap_or(&empty) {
+    match t.as_str() {
+      Some(text) => rs.push(recognise_one(text, brief)),
+      None => return json!({"harness_error": "recog: text is not a string"}),
+    }
+  }
+  if let Some(edits) = case.get("edits").and_then(|v| v.as_array()) {
+    let base: Vec<char> = match case.get("base").and_then(|v| v.as_str()) {
+      Some(b) => b.chars().collect(),
+      None => return json!({"harness_error": "recog: edits without base"}),
+    };
+    for e in edits {
+      let (start, end, rep) = match e.as_array() {
+        Some(a) if a.len() == 3 => match (a[0].as_u64(), a[1].as_u64(), a[2].as_str()) {
+          (Some(s), Some(e), Some(r)) => (s as usize, e as usize, r),
+          _ => return json!({"harness_error": "recog: bad edit"}),
+        },
+        _ => return json!({"harness_error": "recog: bad edit"}),
+      };
+      let start = start.min(base.len());
+      let end = end.max(start).min(base.len());
+      let mut text = String::with_capacity(base.len() * 3 + rep.len());
+      text.extend(base[..start].iter());
+      text.push_str(rep);
+      text.extend(base[end..].iter());
+      rs.push(recognise_one(&text, brief));
+    }
+  }
+  json!({ "rs": rs })
+}
+
+fn dtext_one(item: &J) -> J {
+  let text = match item.get("text").and_then(|v| v.as_str()) {
+    Some(t) => t,
+    None => return json!({"harness_error": "dtext: item without text"}),
+  };
+  let empty = vec![];
+  let mut ctxs: Vec<FeelContext> = vec![];
+  for inp in item.get("inputs").and_then(|v| v.as_array()).unwrap_or(&empty) {
+    match inp.as_array().map(|a| vj::to_context(a)) {
+      Some(Ok(c)) => ctxs.push(c),
+      Some(Err(e)) => return json!({ "harness_error": e }),
+      None => return json!({"harness_error": "dtext: bad inputs entry"}),
+    }
+  }
+  clear_panic();
+  let dt = match std::panic::catch_unwind(|| dmntk_recognizer::build(text)) {
+    Ok(Ok(dt)) => dt,
+    Ok(Err(e)) => return json!({"err": e.to_string()}),
+    Err(_) => return json!({"panic": take_panic(), "stage": "recognise"}),
+  };
+  let build_scope: Scope = ctxs.first().cloned().unwrap_or_default().into();
+  clear_panic();
+  let evaluator = match std::panic::catch_unwind(std::panic::AssertUnwindSafe(|| dmntk_model_evaluator::build_decision_table_evaluator(&build_scope, &dt))) {
+    Ok(Ok(e)) => e,
+    Ok(Err(e)) => return json!({"build_err": e.to_string(), "dt": table_json(&dt)}),
+    Err(_) => return json!({"panic": take_panic(), "stage": "build", "dt": table_json(&dt)}),
+  };
+  let mut vs = vec![];
+  for ctx in &ctxs {
+    let scope: Scope = ctx.clone().into();
+    clear_panic();
+    match std::panic::catch_unwind(std::panic::AssertUnwindSafe(|| evaluator(&scope))) {
+      Ok(v) => {
+        let mut rec = json!({"v": vj::from_value(&v)});
+        if let Some(m) = vj::null_msg(&v) {
+          rec["nm"] = json!(m);
+        }
+        vs.push(rec);
+      }
+      Err(_) => vs.push(json!({"panic": take_panic()})),
+    }
+  }
+  json!({"dt": table_json(&dt), "vs": vs})
+}
+
+pub fn op_dtext(case: &J) -> J {
+  let items = match case.get("items").and_then(|v| v.as_array()) {
+    Some(a) => a,
+    None => return json!({"harness_error": "dtext: no items"}),
+  };
+  let mut rs = vec![];
+  for item in items {
+    let r = dtext_one(item);
+    if r.get("harness_error").is_some() {
+      return r;
+    }
+    rs.push(r);
+  }
+  json!({ "rs": rs })
 }
